@@ -35,6 +35,24 @@ def _run(patch: str, pid: str) -> tuple[str, int, str]:
         shutil.rmtree(d, ignore_errors=True)
 
 
+def _relevant_files(pid: str) -> set[str]:
+    """Files the property's anchors name plus the files of the functions its table entries sit in."""
+    files: set[str] = set()
+    try:
+        for line in open(os.path.join(VERIF, "properties.jsonl"), encoding="utf-8"):
+            pr = json.loads(line)
+            if pr["id"] == pid:
+                files |= set(pr.get("anchors", {}).get("files", []))
+        from .props import TABLE
+
+        for g in TABLE:
+            if pid in g.props:
+                files.add(g.fn.split("::")[0])
+    except Exception:
+        return set()
+    return files
+
+
 def expected() -> dict:
     path = os.path.join(VERIF, "selftest", "expect.json")
     return json.load(open(path)) if os.path.exists(path) else {}
@@ -54,10 +72,19 @@ def run_selftest(pid: str) -> dict:
             mutants.append((name, patch, want))
     twins = []
     tdir = os.path.join(VERIF, "selftest", "twins")
+    rel = _relevant_files(pid)
+    skipped_irrelevant = 0
     for name in sorted(os.listdir(tdir)) if os.path.isdir(tdir) else []:
         if name.endswith(".diff"):
-            twins.append((name, os.path.join(tdir, name)))
-    out = {"mutants_total": 0, "mutants_fired": 0, "mutants_skipped": 0, "twins_total": 0, "twins_silent": 0, "twins_skipped": 0, "failures": [], "details": []}
+            path = os.path.join(tdir, name)
+            touched = {l[6:].strip() for l in open(path, encoding="utf-8") if l.startswith("+++ b/")}
+            # a refactoring of a file no rule of this property reads cannot change its verdict;
+            # `tools/alltwins.py` runs every twin against every property
+            if rel and not (touched & rel):
+                skipped_irrelevant += 1
+                continue
+            twins.append((name, path))
+    out = {"twins_not_touching_relevant_files": skipped_irrelevant, "mutants_total": 0, "mutants_fired": 0, "mutants_skipped": 0, "twins_total": 0, "twins_silent": 0, "twins_skipped": 0, "failures": [], "details": []}
     with ThreadPoolExecutor(max_workers=min(16, (os.cpu_count() or 4))) as ex:
         mres = list(ex.map(lambda m: _run(m[1], pid), mutants))
         tres = list(ex.map(lambda t: _run(t[1], pid), twins))
